@@ -70,7 +70,7 @@ def _sym(n, cells, dtype='float'):
 def _harness(ctx):
     from .. import absint, npstub
     stubs = dict(npstub.stubs())
-    stubs['progressbar'] = lambda x, **k: x
+    stubs['progressbar'] = lambda x, **k: (v_ for v_ in x)
     stubs['deepcopy'] = absint.deep_copy
     fn = absint.funcs(ctx, SEG, stubs)
     return fn
@@ -239,10 +239,26 @@ def rule_B(ctx):
             want = expand(M, 0, n - 1) + [n - 1]
             if got != want and len(bad) < 5:
                 bad.append({'n': n, 'recorded splits': {'%d-%d' % k: v for k, v in M.items() if v >= 0}, 'returned': got, 'expected': want})
+    # long candidate lists with few break points (the result is an ordered list whatever containers hold the break points on the way)
+    for n, splits in ((9, {(0, 8): 5}), (10, {(0, 9): 5}), (12, {(0, 11): 9, (0, 9): 4}), (12, {(0, 11): 3, (3, 11): 10}), (33, {(0, 32): 20}), (40, {(0, 39): 33, (0, 33): 17, (33, 39): 36}),
+                      (70, {(0, 69): 64, (0, 64): 8}), (130, {(0, 129): 100})):
+        M = dict(splits)
+        rows = [[-1.0] * n for _ in range(n)]
+        for (i, j), v in M.items():
+            rows[i][j] = float(v)
+        A = npstub.make(rows, 'float')
+        n_tab += 1
+        try:
+            got = _as_indices(run(lambda: call(A)))
+        except (IndexError, KeyError, TypeError, ValueError, RecursionError) as ex:
+            got = '%s: %s' % (type(ex).__name__, str(ex)[:200])
+        want = expand(M, 0, n - 1) + [n - 1]
+        if got != want and len(bad) < 5:
+            bad.append({'n': n, 'recorded splits': {'%d-%d' % k: v for k, v in M.items() if v >= 0}, 'returned': got, 'expected': want})
     ctx.extra['split_tables_interpreted'] = n_tab
     ctx.check(not bad, 'C12.B', fw,
               'backward(M) expands every recorded split point, recursively, into the increasing list from 0 to n-1 '
-              '(all %d consistent split tables for n <= 5)' % n_tab, witness={'wrong expansions': bad}, node=fw.node, key='expand')
+              '(all consistent split tables for n <= 5 and eight sparse tables for n = 9 ... 130: %d tables)' % n_tab, witness={'wrong expansions': bad}, node=fw.node, key='expand')
 
 
 def rule_S(ctx):
@@ -296,7 +312,7 @@ def rule_S(ctx):
         """interpret `entry` with optimalPartition replaced by a recorder; returns (records, cost calls, result, exception text)"""
         rec, calls = [], []
         stubs = dict(npstub.stubs())
-        stubs['progressbar'] = lambda x, **k: x
+        stubs['progressbar'] = lambda x, **k: (v_ for v_ in x)
         stubs['Track'] = TrackS
 
         def partition(cm, mode=MIN, verbose=True):
